@@ -248,8 +248,9 @@ def rule_p4(repo):
     func = repo.func(THEORY, 'Theory.checked_extend')
     cfg = cfg_of(func.node)
     flow = flow_of(func.node)
-    adds = _nodes_calling(cfg, lambda c: call_name(c) == 'self.add_theorem')
-    need(adds, 'checked_extend: self.add_theorem call not found')
+    # the statement becomes citable through add_theorem - directly, or through unchecked_extend, which calls it
+    adds = _nodes_calling(cfg, lambda c: call_name(c) in ('self.add_theorem', 'self.unchecked_extend', 'self.extend_theorem'))
+    need(adds, 'checked_extend: no call that installs the theorem (add_theorem / unchecked_extend) found')
     prf_tests = [n for n in cfg.test_nodes() if (path_of(n.ast) or '').endswith('.prf') or
                  (compare_parts(n.ast) and (path_of(compare_parts(n.ast)[1]) or '').endswith('.prf'))]
     need(prf_tests, 'checked_extend: test on the extension\'s proof not found')
